@@ -2,7 +2,7 @@
    (Gen/c03_constants.v from numbers/constants.py class TransportTuning; Gen/c14_message_id.v from
    messagemanager.py MessageManager._next_message_id).  A change of the source constants or of the successor
    formula regenerates the Gen files and breaks these lemmas; the correspondence streams then look for the failing history. *)
-From Coq Require Import ZArith QArith List.
+From Coq Require Import ZArith QArith List Lia.
 From Verif Require Import Lib.Py.
 From Verif Require Gen.c03_constants Gen.c14_message_id.
 From Verif Require Import Model.C08.
@@ -15,12 +15,16 @@ Lemma ack_timeout_is_source : Qeq (inject_Z ACK_TIMEOUT_US) (Qmult (c03_constant
 Proof. vm_compute. reflexivity. Qed.
 Lemma max_retransmit_is_source : MAX_RETRANSMIT = c03_constants.tt_MAX_RETRANSMIT c03_constants.default_transport_tuning.
 Proof. reflexivity. Qed.
+(* robust against equivalent spellings of the successor in the source (Z.land either way round, or mod 65536) *)
+Ltac mid16 :=
+  cbn [c14_message_id.mmids_message_id fst snd];
+  change 65535 with (Z.ones 16); change 65536 with (2 ^ 16);
+  repeat rewrite (Z.land_comm (Z.ones 16));
+  repeat rewrite Z.land_ones by (vm_compute; discriminate);
+  first [reflexivity | repeat (f_equal; try lia)].
+
 (* the model writes the successor as [(1 + mid) mod 65536]; the translated method computes [Z.land 65535 (1 + mid)]: the same for every mid *)
 Lemma next_message_id_is_source : forall mid,
   c14_message_id.next_message_id {| c14_message_id.mmids_message_id := mid |}
   = Ok ({| c14_message_id.mmids_message_id := (1 + mid) mod 65536 |}, mid).
-Proof.
-  intros mid. unfold c14_message_id.next_message_id. cbn [c14_message_id.mmids_message_id].
-  change 65535 with (Z.ones 16). rewrite Z.land_comm, Z.land_ones by (compute; discriminate).
-  reflexivity.
-Qed.
+Proof. intros mid. unfold c14_message_id.next_message_id. mid16. Qed.
